@@ -813,12 +813,13 @@ def main():
     ck.assume('hash-seed independence is decided for the listed seeds only (the seed space cannot be enumerated)')
     ck.assume('mtime/inode stability is required of configure_file outputs, generated .pc files and the dependency manifest; build.ninja and meson-info/* are only required to keep their content')
     ck.assume('generated text legitimately depends on where the build directory lies (relative paths): every comparison is between configurations at the same absolute source and build paths')
-    ck.finish(evaluations=tot['setups'] + ptot['setups'] + mtot['setups'] + rtot['setups'], distinct_nontrivial=len(classes),
+    ck.finish(evaluations=tot['setups'] + ptot['setups'] + mtot['setups'] + rtot['setups'] + optot['setups'], distinct_nontrivial=len(classes),
               rule='per project the full product of %d hash seeds x 3 environ orders x 3 directory-listing orders of fresh setups at identical paths (quick tier: full product for the language-less project, one dimension at a time for the others), plus cross-seed reconfigure and no-op reconfigure histories '
                    'and a fresh build directory that already holds the (empty) directories an earlier configuration would have left; '
                    'projects: two hand-written rich projects (pkgconfig, configure_file, install rules, tests, subprojects, options), a language-less one, projgen shapes and corpus projects. '
                    'Build-directory placement family: %d placements (sibling of the sources, nested in them, nested two levels; thorough: also elsewhere at another depth) x 2 ways of naming the directories (absolute; relative from the source root / from inside the build dir) '
                    'x {fresh, reconfigured under another seed, reconfigured again, wiped}, for a project holding the full grid of %d (writer x reader x order) ways in which configuration creates a file in the build directory and names it again (with and without a C target) and the language-less project, run outside /dev. '
+                   'Earlier-options family: a build directory configured under another vector of option values (12 vectors: 6 orders / subsets / duplicates of two dependency search-path directories that provide one package with different flags, and single changes of default_library, a project option, buildtype, libdir, cmake_prefix_path, c_args) and brought to the present vector by setup --reconfigure -D / meson configure + regeneration, against a fresh configuration with the present vector. '
                    'Earlier-revision family: a build directory configured from an earlier revision of the project - every insert / delete / swap / retype at every position of the option declarations (3), of a subproject\'s option declarations (2) and of the dependency-lookup (3) and target (2) statements '
                    '(thorough: every ordered pair of edits as two earlier revisions) - then reconfigured from the present revision, against a fresh configuration at the same paths. '
                    'distinct_nontrivial = distinct (project family or placement, number-of-generated-files bucket)' % (len(seeds), len(placements), len(c6.cells())),
